@@ -182,6 +182,7 @@ public:
 		std::lock_guard<Mutex> lockGuard(mutex);
 		EVENTPP_VERIF_ACCESS(this, true, "cl.append");
 
+		node->counter = doGetNextCounter();
 		doAppend(node);
 
 		return Handle(node);
@@ -193,6 +194,8 @@ public:
 
 		std::lock_guard<Mutex> lockGuard(mutex);
 		EVENTPP_VERIF_ACCESS(this, true, "cl.prepend");
+
+		node->counter = doGetNextCounter();
 
 		if(head) {
 			node->next = head;
@@ -221,6 +224,8 @@ public:
 		// invocation is not in the list any more, so we append in that case.
 		std::lock_guard<Mutex> lockGuard(mutex);
 		EVENTPP_VERIF_ACCESS(this, true, "cl.insert");
+
+		node->counter = doGetNextCounter();
 
 		NodePtr beforeNode = before.lock();
 		EVENTPP_VERIF_POINT("cl.insert.beforelocked");
@@ -309,13 +314,13 @@ public:
 	void operator() (Args ...args) const
 	{
 		NodePtr node;
+		Counter counter;
 
 		{
 			std::lock_guard<Mutex> lockGuard(mutex);
 			node = head;
+			counter = currentCounter.load(std::memory_order_acquire);
 		}
-
-		const Counter counter = currentCounter.load(std::memory_order_acquire);
 
 		while(node) {
 			if(node->counter != removedCounter && counter >= node->counter) {
@@ -338,14 +343,17 @@ private:
 	bool doForEachIf(F && f) const
 	{
 		NodePtr node;
+		Counter counter;
 
 		{
+			// The generation is read in the same critical section that reads head, and callbacks get
+			// their generation in the critical section that links them (see doGetNextCounter), so a
+			// traversal never sees the counter in the middle of its wrap-around.
 			std::lock_guard<Mutex> lockGuard(mutex);
 			EVENTPP_VERIF_ACCESS(this, false, "cl.traverse.head");
 			node = head;
+			counter = currentCounter.load(std::memory_order_acquire);
 		}
-
-		const Counter counter = currentCounter.load(std::memory_order_acquire);
 
 		while(node) {
 			EVENTPP_VERIF_POINT("cl.traverse.counter");
@@ -410,7 +418,8 @@ private:
 	
 	NodePtr doAllocateNode(const Callback & callback)
 	{
-		return std::make_shared<Node>(callback, getNextCounter());
+		// The node gets its generation when it is linked, see doGetNextCounter.
+		return std::make_shared<Node>(callback, removedCounter);
 	}
 	
 	void doFreeNode(NodePtr & node)
@@ -452,18 +461,20 @@ private:
 		node.reset();
 	}
 
-	Counter getNextCounter()
+	// The caller must hold the mutex (or be the only one who can reach this object, as in the copy
+	// constructor). A generation used to be drawn before the mutex was taken: an addition that drew its
+	// generation just before another thread's addition wrapped the counter was linked with the stale,
+	// huge generation after the reset below and stayed invisible to all invocations, and an invocation
+	// that read the counter between the two increments below called nothing.
+	Counter doGetNextCounter()
 	{
 		Counter result = ++currentCounter;;
 		if(result == 0) { // overflow, let's reset all nodes' counters.
-			{
-				std::lock_guard<Mutex> lockGuard(mutex);
-				EVENTPP_VERIF_ACCESS(this, true, "cl.wrap");
-				NodePtr node = head;
-				while(node) {
-					node->counter = 1;
-					node = node->next;
-				}
+			EVENTPP_VERIF_ACCESS(this, true, "cl.wrap");
+			NodePtr node = head;
+			while(node) {
+				node->counter = 1;
+				node = node->next;
 			}
 			result = ++currentCounter;
 		}
@@ -474,7 +485,7 @@ private:
 	void cloneFrom(const NodePtr & fromHead) {
 		NodePtr fromNode(fromHead);
 		NodePtr node;
-		const Counter counter = getNextCounter();
+		const Counter counter = doGetNextCounter();
 		while(fromNode) {
 			const NodePtr nextNode(std::make_shared<Node>(fromNode->callback, counter));
 
